@@ -504,8 +504,11 @@ def extract(repo: Path) -> dict:
     if st_fn is None:
         fail(base, "ArrayBase.array has no setter")
     b = [norm(s) for s in body_no_doc(st_fn)]
-    if b != ["self._validate(value)", "self._array = value"]:
-        fail(st_fn, "ArrayBase.array setter must be `self._validate(value); self._array = value`")
+    # aliasing is not a property-relevant observable: storing a copy of the validated array is the same thing
+    if (len(b) != 2 or b[0] != "self._validate(value)"
+            or b[1] not in {"self._array = " + v for v in ("value", "value.copy()", "np.copy(value)", "np.array(value)",
+                                                          "np.array(value, copy=True)")}):
+        fail(st_fn, "ArrayBase.array setter must be `self._validate(value); self._array = value` (or a copy of it)")
     init = find_func(tree, "__init__", "ArrayBase")
     ib = [norm(s) for s in body_no_doc(init)]
     if "self._shape = shape" not in ib or not any(s.startswith("self._array") and s.endswith("= None") for s in ib):
